@@ -50,6 +50,11 @@ META = dict(
          "actions are fns and the gate flag is exactly k, for every earlier history), add_never_clears, "
          "flag_after_history / flag_without_set (full characterisation of the flag), acts_after_history, "
          "replaced_action_silent_when_trying and history_fires_only_current_actions (full strength, every history); "
+         "The two branches of _parseNoCache (the one taken with set_debug / set_debug_actions / set_fail_action and the "
+         "plain one) are transcribed separately over an abstract element (any preParse, any parseImpl, any actions): "
+         "debug_branch_agrees (same result and the same action calls - ids, order, loc - up to the debug callbacks, for "
+         "every element, location, do_actions, callPreParse), action_loc_is_match_start (every action gets pre_loc, the "
+         "location after skipping ignorables and whitespace, in both branches), debug_settings_keep_the_firing_rule. "
          "clear_resets_flag is the regression theorem of the fixed finding call_during_try_survives_clear (7688521: "
          "set_parse_action(None) counts as a set_parse_action without actions and without the keyword).",
     note="Trusted: Lean kernel; axioms propext/Classical.choice/Quot.sound; CPython traceback frame layout (a binding "
@@ -100,6 +105,9 @@ THEOREMS = [
     "PP.ActionGate.replaced_action_silent_when_trying",
     "PP.ActionGate.history_fires_only_current_actions",
     "PP.ActionGate.clear_resets_flag",
+    "PP.ActionGate.debug_branch_agrees",
+    "PP.ActionGate.action_loc_is_match_start",
+    "PP.ActionGate.debug_settings_keep_the_firing_rule",
 ]
 
 SIG_INDEX = "indexerror_after_arity_found"
@@ -916,7 +924,7 @@ def nullable(t):
         return False
     if k == "act":
         return nullable(t[3])
-    if k == "hist":
+    if k in ("hist", "dbg"):
         return nullable(t[2])
     if k == "seq":
         return nullable(t[1]) and nullable(t[2])
@@ -932,9 +940,52 @@ def nullable(t):
 
 
 def strip_act(t):
-    while t[0] in DECO:
+    while t[0] in DECO or t[0] == "dbg":
         t = t[3] if t[0] == "act" else t[2]
     return t
+
+
+DBG_MODES = ["debug", "actions", "fail", "both", "null"]
+# debug    set_debug(True)                      (default printing callbacks; stdout is swallowed)
+# actions  set_debug_actions(start, success, exception)   silent logging callbacks
+# fail     set_fail_action(fn)
+# both     set_debug_actions(...) and set_fail_action(fn)
+# null     set_debug_actions(null_debug_action x 3)
+
+
+def strip_dbg(t):
+    """the same grammar without set_debug / set_debug_actions / set_fail_action"""
+    if not isinstance(t, tuple):
+        return t
+    if t[0] == "dbg":
+        return strip_dbg(t[2])
+    return tuple(strip_dbg(x) if isinstance(x, tuple) else x for x in t)
+
+
+def has_dbg(t):
+    return isinstance(t, tuple) and (t[0] == "dbg" or any(has_dbg(x) for x in t[1:]))
+
+
+def lit_actions(t, out=None):
+    """ids of the actions installed on a Literal: id -> its character (the match of that element starts with it)"""
+    out = {} if out is None else out
+    if not isinstance(t, tuple):
+        return out
+    if t[0] in DECO and strip_act(t)[0] == "lit":
+        inner = t
+        while inner[0] in DECO or inner[0] == "dbg":
+            if inner[0] == "act":
+                for a in inner[1]:
+                    out[a["id"]] = strip_act(t)[1]
+            elif inner[0] == "hist":
+                for op in inner[1]:
+                    for a in op.get("acts", ()):
+                        out[a["id"]] = strip_act(t)[1]
+            inner = inner[3] if inner[0] == "act" else inner[2]
+        return out
+    for x in t[1:]:
+        lit_actions(x, out)
+    return out
 
 
 # ---- an element's action configuration as a history of operations (PP.ActionGate.Op / runOps) ------------------
@@ -980,6 +1031,8 @@ def tree_sexp(t):
         return [Sym("act"), [[a["id"], Sym(a["kind"])] for a in t[1]], bool(t[2]), tree_sexp(t[3])]
     if k == "hist":
         return [Sym("hist"), [op_sexp(op) for op in t[1]], tree_sexp(t[2])]
+    if k == "dbg":
+        return [Sym("dbg"), Sym(t[1]), tree_sexp(t[2])]
     if k in ("seq", "alt"):
         return [Sym(k), tree_sexp(t[1]), tree_sexp(t[2])]
     if k in ("or", "each"):
@@ -1003,6 +1056,8 @@ def firable(t, da):
         acts, cdt = hist_cfg(t[1])
         own = {a["id"] for a in acts} if (da or cdt) else set()
         return own | firable(t[2], da)
+    if k == "dbg":
+        return firable(t[2], da)
     if k in ("seq", "alt"):
         return firable(t[1], da) | firable(t[2], da)
     if k in ("or", "each"):
@@ -1037,6 +1092,12 @@ class Log(list):
         super().__init__()
         self.trial = []
         self.trial_events = []
+        self.callbacks = []  # debug callbacks / fail action calls: (kind, loc, ...)
+        self.order = []  # actions and callbacks in the order they happened
+
+    def append(self, item):
+        super().append(item)
+        self.order.append(("a",) + tuple(item))
 
 
 def hook_first_pass(e, child_tree, log):
@@ -1162,8 +1223,41 @@ def apply_ops(pp, e, ops, log):
     return e
 
 
+def apply_dbg(pp, e, mode, log):
+    """set_debug / set_debug_actions / set_fail_action on the element itself (all return self)"""
+    cb = log.callbacks
+
+    def start(instring, loc, expr, cache_hit=False):
+        cb.append(("try", loc, bool(cache_hit)))
+        log.order.append(("try", loc))
+
+    def success(instring, startloc, endloc, expr, toks, cache_hit=False):
+        cb.append(("match", startloc, endloc, bool(cache_hit)))
+        log.order.append(("match", startloc, endloc))
+
+    def exc_action(instring, loc, expr, exc, cache_hit=False):
+        cb.append(("dfail", loc, bool(cache_hit)))
+        log.order.append(("dfail", loc))
+
+    def fail_action(s, loc, expr, err):
+        cb.append(("fact", loc))
+        log.order.append(("fact", loc))
+
+    if mode == "debug":
+        e.set_debug(True)
+    elif mode == "null":
+        e.set_debug_actions(pp.null_debug_action, pp.null_debug_action, pp.null_debug_action)
+    if mode in ("actions", "both"):
+        e.set_debug_actions(start, success, exc_action)
+    if mode in ("fail", "both"):
+        e.set_fail_action(fail_action)
+    return e
+
+
 def build_real(pp, t, log):
     k = t[0]
+    if k == "dbg":
+        return apply_dbg(pp, build_real(pp, t[2], log), t[1], log)
     if k == "lit":
         return pp.Literal(t[1])
     if k == "hist":
@@ -1225,30 +1319,42 @@ def acts_of(t, out=None):
     return out
 
 
-def run_gate_real(pp, t, s, da, via_parse_string=False):
+def run_gate_real(pp, t, s, da, via_parse_string=False, packrat=False, ignore=False):
     """da=False: e.try_parse(s, 0) (the trial-matching entry point); da=True: e.try_parse(..., do_actions=True);
-    via_parse_string: e.parse_string(s) (oracle only: its And/preParse wrapper is outside the mini-model)"""
+    via_parse_string: e.parse_string(s) (oracle only: its And/preParse wrapper is outside the mini-model);
+    packrat / ignore (oracle only): with packrat enabled / with `#` as an ignorable of the whole grammar"""
     log = Log()
-    e = build_real(pp, t, log)
+    old_out = sys.stdout
+    sys.stdout = _Quiet()  # set_debug(True) prints
     try:
-        pp.ParserElement.reset_cache()
-        if via_parse_string:
-            common.with_alarm(5, e.parse_string, s)
-            res = [Sym("ok"), -1]
-        else:
-            e.streamline()
-            end = common.with_alarm(5, e.try_parse, s, 0, raise_fatal=True, do_actions=bool(da))
-            res = [Sym("ok"), end]
-    except common.CaseTimeout:
-        res = Sym("hang")
-    except pp.ParseFatalException:
-        res = Sym("fatal")
-    except pp.ParseException:
-        res = Sym("fail")
-    except ValueError:
-        res = Sym("err")
-    except Exception as x:  # noqa
-        res = Sym("internal-" + type(x).__name__)
+        if packrat:
+            pp.ParserElement.enable_packrat()
+        e = build_real(pp, t, log)
+        if ignore:
+            e.ignore(pp.Literal("#"))
+        try:
+            pp.ParserElement.reset_cache()
+            if via_parse_string:
+                common.with_alarm(5, e.parse_string, s)
+                res = [Sym("ok"), -1]
+            else:
+                e.streamline()
+                end = common.with_alarm(5, e.try_parse, s, 0, raise_fatal=True, do_actions=bool(da))
+                res = [Sym("ok"), end]
+        except common.CaseTimeout:
+            res = Sym("hang")
+        except pp.ParseFatalException:
+            res = Sym("fatal")
+        except pp.ParseException:
+            res = Sym("fail")
+        except ValueError:
+            res = Sym("err")
+        except Exception as x:  # noqa
+            res = Sym("internal-" + type(x).__name__)
+    finally:
+        sys.stdout = old_out
+        if packrat:
+            pp.ParserElement.disable_memoization()
     return sx([res, [[i, l] for i, l in log]]), log
 
 
@@ -1281,11 +1387,14 @@ class TreeGen:
     def maybe_act(self, t, p=0.6):
         rng = self.rng
         if t[0] not in DECO and rng.random() < p:
+            if rng.random() < self.p_dbg:
+                # debug settings / a fail action on the very element that carries the actions
+                t = ("dbg", rng.choice(DBG_MODES), t)
             if rng.random() < self.p_hist:
                 ops = self.history(focus=rng.random() < self.p_focus)
                 # an element left without actions is transparent: streamline() would merge it into a same-kind parent,
                 # which the mini-model does not do; configurations without actions only on literals
-                if (p >= 1.0 or t[0] != "lit") and not hist_cfg(ops)[0]:
+                if (p >= 1.0 or strip_act(t)[0] != "lit") and not hist_cfg(ops)[0]:
                     ops.append(self.one_op("add", None))
                     ops[-1]["acts"] = ops[-1]["acts"] or self.act_list()
                 return ("hist", ops, t)
@@ -1294,6 +1403,7 @@ class TreeGen:
 
     p_hist = 0.3
     p_focus = 0.35
+    p_dbg = 0.08
 
     def one_op(self, o, kw):
         """operation `o` with keyword `kw` (None = not given)"""
@@ -1390,7 +1500,7 @@ def sentence(rng, t, budget=8):
         return t[1]
     if k == "act":
         return sentence(rng, t[3], budget)
-    if k == "hist":
+    if k in ("hist", "dbg"):
         return sentence(rng, t[2], budget)
     if k == "seq":
         return sentence(rng, t[1]) + rng.choice(["", " "]) + sentence(rng, t[2])
@@ -1417,13 +1527,19 @@ def sentence(rng, t, budget=8):
     return rng.choice(["", "a", "b", "c"])  # not
 
 
-def gen_gate_cases(ctx, tag="gate", n=None, p_hist=None, p_focus=None, depths=(1, 2, 2, 3, 3, 4)):
+WS_VARIANTS = [" ", " ", "  ", "\t", "\n", " \n ", "\t ", "\r\n"]
+
+
+def gen_gate_cases(ctx, tag="gate", n=None, p_hist=None, p_focus=None, depths=(1, 2, 2, 3, 3, 4), p_dbg=None,
+                   vary_ws=False):
     rng = ctx.subrng(tag)
     cases = []
     for i in range(ctx.budget(2500, 40000) if n is None else n):
         g = TreeGen(rng)
         if p_hist is not None:
             g.p_hist, g.p_focus = p_hist, p_focus
+        if p_dbg is not None:
+            g.p_dbg = p_dbg
         t = g.tree(rng.choice(depths))
         if not acts_of(t):
             t = ("act", g.act_list(), False, t) if t[0] not in DECO else ("act", g.act_list(), False, ("seq", t, ("lit", "a")))
@@ -1437,7 +1553,9 @@ def gen_gate_cases(ctx, tag="gate", n=None, p_hist=None, p_focus=None, depths=(1
                 s = s[:j] + rng.choice(["", "a", "b", "c", " "]) + s[j + 1:]
             if rng.random() < 0.3:
                 s += rng.choice([" ", "a", "b", "c"])
-            ins.add(s[:10])
+            if vary_ws:  # leading blanks / tabs / newlines before the matches
+                s = rng.choice(["", " ", "\t", "\n ", "  "]) + "".join(rng.choice(WS_VARIANTS) if ch == " " else ch for ch in s)
+            ins.add(s[:10] if not vary_ws else s[:14])
         if rng.random() < 0.3:
             ins.add("".join(rng.choice("abc ") for _ in range(rng.randint(0, 6))))
         for s in sorted(ins):
@@ -1460,13 +1578,55 @@ def oracle_gate(t, s, da, log):
     return None
 
 
-def check_gate(ctx, pp, stream="gate", cases=None, max_fail=3):
+DBG_CONFIGS = [dict(via=False, packrat=False, ignore=False), dict(via=True, packrat=False, ignore=False),
+               dict(via=False, packrat=True, ignore=False), dict(via=True, packrat=True, ignore=False),
+               dict(via=False, packrat=False, ignore=True), dict(via=True, packrat=False, ignore=True)]
+
+
+def with_ignorables(s):
+    """`#` is an ignorable of the grammar: put some in front of the tokens"""
+    return ("#" + s).replace(" ", " #", 2).replace("\n", "\n# ", 1)
+
+
+def oracle_dbg(pp, t, s, da, configs=DBG_CONFIGS):
+    """debug_branch_agrees / action_loc_is_match_start on the real code: the grammar with set_debug /
+    set_debug_actions / set_fail_action on some elements and the same grammar without them give the same result and
+    the same action calls (ids, order, loc); and an action on a Literal gets the location its match starts at.
+    Returns None or (description, theorem, impl output, config)"""
+    if not has_dbg(t):
+        return None
+    plain = strip_dbg(t)
+    lits = lit_actions(t)
+    acts = acts_of(t)
+    for cf in configs:
+        if cf["via"] and not da:
+            continue
+        text = with_ignorables(s) if cf["ignore"] else s
+        kw = dict(via_parse_string=cf["via"], packrat=cf["packrat"], ignore=cf["ignore"])
+        io, log = run_gate_real(pp, t, text, da, **kw)
+        io0, _ = run_gate_real(pp, plain, text, da, **kw)
+        how = ("parse_string" if cf["via"] else f"try_parse(do_actions={bool(da)})") + \
+              (", packrat" if cf["packrat"] else "") + (f", '#' ignorable, input {text!r}" if cf["ignore"] else "")
+        seen = text.expandtabs() if cf["via"] else text
+        for i, l in log:
+            if i in lits and SHAPE_HAS_LOC[acts[i]["shape"]] and seen[l:l + 1] != lits[i]:
+                return (f"action {i} sits on Literal({lits[i]!r}) (an element with debug settings / a fail action in the "
+                        f"grammar) and was called with loc={l}, but the input has {seen[l:l + 1]!r} there: loc is not the "
+                        f"start of the match after skipping [{how}]",
+                        "PP.ActionGate.action_loc_is_match_start", io, cf)
+        if io != io0:
+            return (f"with set_debug / set_debug_actions / set_fail_action the grammar gives {io}, the same grammar "
+                    f"without them gives {io0} [{how}]", "PP.ActionGate.debug_branch_agrees", io, cf)
+    return None
+
+
+def check_gate(ctx, pp, stream="gate", cases=None, max_fail=3, dbg_configs=DBG_CONFIGS[:2]):
     cases = gen_gate_cases(ctx) if cases is None else cases
     lines = [sx(Sym("gate"), tree_sexp(t), s, da) for t, s, da in cases]
     mouts = ctx.driver.run_sharded(lines)
     keep_c, keep_l, keep_m, impl, js = [], [], [], [], []
-    n_fail = 0
-    seen_da = set()
+    n_fail = n_dbg = 0
+    seen_da, seen_thm = set(), set()
     skipped = 0
     for (t, s, da), ln, mo in zip(cases, lines, mouts):
         if mo.startswith("(hang") or mo in ("bad-op", "bad-line"):
@@ -1492,12 +1652,123 @@ def check_gate(ctx, pp, stream="gate", cases=None, max_fail=3):
             seen_da.add(da)  # one trial-entry witness, one through a real parse (Or / Each / SkipTo / stop_on inside)
             ctx.fail_input("action fired during trial matching", {"tree": t, "s": s, "da": da}, bad[0], io,
                            theorem=bad[1], how="harness/props/c13.py run_gate_real(tree, s, da)")
+        badd = None if bad else oracle_dbg(pp, t, s, da, dbg_configs)
+        if badd and n_dbg < 3 and badd[1] not in seen_thm:
+            n_dbg += 1
+            seen_thm.add(badd[1])
+            ctx.fail_input("parse action protocol differs on an element with debug settings / a fail action",
+                           {"tree": t, "s": s, "da": da, "config": badd[3]}, badd[0], badd[2], theorem=badd[1],
+                           how="harness/props/c13.py oracle_dbg(tree, s, da)")
     ctx.notes[stream + "_skipped_model_hang"] = skipped
     kept = [j.pop("_case") for j in js]
     diffs = ctx.correspond(stream, js, keep_l, impl, model_outputs=keep_m,
                            nontrivial=lambda c, o: "((" in o.split(" ", 1)[-1] or o.startswith("((ok"),
                            outcome_of=lambda c, o: o.split(" ", 1)[0].lstrip("(").rstrip(")") + ("/da" if c["da"] else "/try"))
     return [kept[i] for i in diffs]
+
+
+# ---- one `_parseNoCache` call with / without debug settings: PP.ActionGate.parseNoCache (both branches) -----------
+def gen_pnc_cases(ctx, n, tag="pnc"):
+    rng = ctx.subrng(tag)
+    cases = []
+    for _ in range(n):
+        before = rng.choice(["", "", "b", "a ", "ab"])
+        ws = "".join(rng.choice(" \t\n\r") for _ in range(rng.choice([0, 1, 1, 2, 3])))
+        s = before + ws + rng.choice(["a", "a", "ab", "b", "", "a a"])
+        g = TreeGen(rng)
+        acts = g.act_list() if rng.random() < 0.85 else []
+        if acts and rng.random() < 0.3:
+            acts = acts + g.act_list()
+        for a in acts:
+            a["shape"] = rng.choice(["def3", "def2", "lambda3", "bound2", "varargs", "partial2"])
+        cases.append({"s": s, "loc": len(before), "acts": acts, "cdt": rng.random() < 0.3,
+                      "mode": rng.choice([None] + DBG_MODES + ["both", "fail"]), "da": rng.random() < 0.6,
+                      "cp": rng.random() < 0.75, "cond": rng.random() < 0.25})
+    return cases
+
+
+def run_pnc_real(pp, c, mode):
+    """Literal('a') carrying the actions (or conditions) and the debug settings `mode`; one e._parse call"""
+    log = Log()
+    e = pp.Literal("a")
+    if c["acts"]:
+        kw = {"call_during_try": True} if c["cdt"] else {}
+        if c["cond"] and all(a["kind"] in ("keep", "fail", "err") for a in c["acts"]):
+            e.add_condition(*[make_logger(pp, a, log, as_cond=True) for a in c["acts"]], **kw)
+        else:
+            e.set_parse_action(*[make_logger(pp, a, log) for a in c["acts"]], **kw)
+    if mode is not None:
+        apply_dbg(pp, e, mode, log)
+    old_out, sys.stdout = sys.stdout, _Quiet()
+    try:
+        end, _ = common.with_alarm(5, e._parse, c["s"], c["loc"], bool(c["da"]), callPreParse=bool(c["cp"]))
+        res = [Sym("ok"), end]
+    except pp.ParseFatalException:
+        res = Sym("fatal")
+    except pp.ParseException:
+        res = Sym("fail")
+    except ValueError:
+        res = Sym("err")
+    finally:
+        sys.stdout = old_out
+    evs = [[Sym(ev[0])] + list(ev[1:]) for ev in log.order]
+    return sx([res, evs]), bool(e.mayIndexError)
+
+
+def oracle_pnc(c, io, io_plain):
+    """action_loc_is_match_start / debug_settings_keep_the_firing_rule / debug_branch_agrees on the real element"""
+    res, evs = loads(io)
+    s, pre = c["s"], c["loc"]
+    if c["cp"]:
+        while pre < len(s) and s[pre] in " \t\n\r":
+            pre += 1
+    acts = [ev for ev in evs if ev[0] == "a"]
+    for ev in acts:
+        if ev[2] != pre:
+            return (f"action {ev[1]} of Literal('a') (debug settings: {c['mode']}) was called with loc={ev[2]}; the match "
+                    f"starts at {pre} after skipping from {c['loc']} in {s!r}", "PP.ActionGate.action_loc_is_match_start")
+    if acts and not (c["da"] or c["cdt"]):
+        return (f"actions {[ev[1] for ev in acts]} fired with do_actions=False and no call_during_try (debug settings: "
+                f"{c['mode']})", "PP.ActionGate.debug_settings_keep_the_firing_rule")
+    res0, evs0 = loads(io_plain)
+    if sx(res) != sx(res0) or sx(acts) != sx(evs0):
+        return (f"with debug settings {c['mode']}: result {sx(res)}, action calls {sx(acts)}; without: {sx(res0)}, "
+                f"{sx(evs0)}", "PP.ActionGate.debug_branch_agrees")
+    return None
+
+
+def check_pnc(ctx, pp, n, tag="pnc", correspond=True):
+    cases = gen_pnc_cases(ctx, n, tag)
+    lines, impl, mfilter = [], [], []
+    n_fail = 0
+    for c in cases:
+        io, mie = run_pnc_real(pp, c, c["mode"])
+        io0, _ = run_pnc_real(pp, c, None)
+        impl.append(io)
+        dbg = c["mode"] in ("debug", "actions", "both", "null")
+        lines.append(sx(Sym("pnc"), c["s"], "a", [[a["id"], Sym(a["kind"])] for a in c["acts"]], bool(c["cdt"]), dbg,
+                        c["mode"] in ("fail", "both"), mie, c["loc"], bool(c["da"]), bool(c["cp"])))
+        mfilter.append(c["mode"] in ("debug", "null"))  # printing / null callbacks are not observable
+        bad = oracle_pnc(c, io, io0)
+        if bad and n_fail < 2:
+            n_fail += 1
+            ctx.fail_input("parse action protocol on an element with debug settings / a fail action", dict(c), bad[0], io,
+                           theorem=bad[1], how="harness/props/c13.py run_pnc_real(case, case['mode'])")
+    if not correspond:
+        ctx.count_cases("search-" + tag, len(cases))
+        return []
+    mouts = []
+    for mo, drop, c in zip(ctx.driver.run_sharded(lines), mfilter, cases):
+        try:
+            res, evs = loads(mo)
+            shapes = {a["id"]: a["shape"] for a in c["acts"]}
+            evs = [ev for ev in evs if not (drop and ev[0] in ("try", "match", "dfail"))]
+            mouts.append(sx([res, evs]))
+        except Exception:  # noqa
+            mouts.append(mo)
+    diffs = ctx.correspond(tag, [dict(c) for c in cases], lines, impl, model_outputs=mouts,
+                           outcome_of=lambda c, o: f"{c['mode']}/{'da' if c['da'] else 'try'}")
+    return [cases[i] for i in diffs]
 
 
 # ---- operation histories on one element: the live attributes against PP.ActionGate.runOps ---------------------
@@ -1716,10 +1987,12 @@ def replay_witnesses(ctx, pp, cfg):
             for via in (False, True):
                 io, log = run_gate_real(pp, t, w["s"], w["da"], via_parse_string=via and w["da"])
                 bad = bad or oracle_gate(t, w["s"], w["da"], log)
+            bad = bad or oracle_dbg(pp, t, w["s"], w["da"])
             ctx.count_cases("corpus", 1, distinct_keys=[p.name], samples=[{"witness": p.name, "impl": io}])
             if bad:
-                ctx.fail_input("action fired during trial matching (corpus witness)",
-                               {"tree": w["tree"], "s": w["s"], "da": w["da"], "file": p.name}, bad[0], io, theorem=bad[1])
+                ctx.fail_input("parse action protocol / firing rule broken (corpus witness)",
+                               {"tree": w["tree"], "s": w["s"], "da": w["da"], "file": p.name}, bad[0],
+                               bad[2] if len(bad) > 2 else io, theorem=bad[1])
             line = sx(Sym("gate"), tree_sexp(t), w["s"], bool(w["da"]))
             io0, _ = run_gate_real(pp, t, w["s"], w["da"])
             ctx.correspond("corpus-gate", [{"tree": sx(tree_sexp(t)), "s": w["s"], "da": w["da"]}], [line], [io0],
@@ -1761,6 +2034,15 @@ def run(ctx):
         "of the fixed finding indexerror_after_arity_found, also replayed from corpus/C13 first); every case is "
         "non-trivial (one real parse_string per invocation)")
     ctx.rule.append(
+        "pnc: one _parse call of Literal('a') carrying actions / conditions x {no debug settings, set_debug(True), "
+        "set_debug_actions(logging), set_debug_actions(null), set_fail_action, both} x leading blanks / tabs / newlines / "
+        "CR x do_actions x callPreParse x call_during_try; the full event order (actions, debug_try / _match / _fail, fail "
+        "action, each with its loc) is compared with PP.ActionGate.parseNoCache; gate-dbg (and 8% of the decorated nodes "
+        "of gate / gate-hist): the same debug settings on the elements that carry the actions inside every trial "
+        "construct, inputs with blanks / tabs / newlines; oracle = the grammar with and without the debug settings gives "
+        "the same result and (id, loc) trace under try_parse, parse_string, packrat on/off and with '#' ignorables, and an "
+        "action on a Literal gets the index its character is at")
+    ctx.rule.append(
         "nest: 6 nesting scenarios (inner_expr.parse_string in the body of 19 outer callables, the same with an inner "
         "condition, trace_parse_action, condition_as_parse_action (+fatal), OnlyOnce) x inner actions that cannot be "
         "called at all (4+ parameters, required keyword-only, ord) systematically + random inner kinds / behaviours, "
@@ -1783,6 +2065,11 @@ def run(ctx):
     hist_cases.sort(key=lambda c: len(sx(tree_sexp(c[0]))))  # small grammars first: the first failing input is readable
     seeds["gate-hist"] = check_gate(ctx, pp, stream="gate-hist", cases=hist_cases, max_fail=2)
     seeds["gate"] = check_gate(ctx, pp)
+    # elements with set_debug / set_debug_actions / set_fail_action: the debugging branch of _parseNoCache
+    seeds["pnc"] = check_pnc(ctx, pp, ctx.budget(1500, 20000))
+    seeds["gate-dbg"] = check_gate(ctx, pp, stream="gate-dbg", cases=gen_gate_cases(
+        ctx, tag="gate-dbg", n=ctx.budget(350, 4000), p_hist=0.3, p_focus=0.35, p_dbg=0.75, vary_ws=True,
+        depths=(1, 1, 2, 2, 3)), dbg_configs=DBG_CONFIGS)
     outside_class_note(ctx, pp)
     if ctx.broken and not ctx.fail_inputs:
         deep_search(ctx, pp, cfg, seeds)
@@ -1840,6 +2127,21 @@ def deep_search(ctx, pp, cfg, seeds):
     ctx.count_cases("search-gate", len(trees))
     if ctx.fail_inputs:
         return
+    # debug settings: the diffing cases again under every configuration, then a bigger run
+    check_pnc(ctx, pp, ctx.budget(4000, 12000), tag="pnc-deep", correspond=False)
+    n_d = 0
+    for t, s_, da in list(seeds.get("gate-dbg", []))[:300] + [c for c in trees if has_dbg(c[0])][:300] + gen_gate_cases(
+            ctx, tag="gate-dbg-deep", n=ctx.budget(300, 1500), p_dbg=0.9, vary_ws=True, depths=(1, 1, 2, 2)):
+        n_d += 1
+        badd = oracle_dbg(pp, t, s_, da)
+        if badd and n_fail < 3:
+            n_fail += 1
+            ctx.fail_input("parse action protocol differs on an element with debug settings / a fail action",
+                           {"tree": t, "s": s_, "da": da, "config": badd[3]}, badd[0], badd[2], theorem=badd[1],
+                           how="harness/props/c13.py oracle_dbg(tree, s, da)")
+    ctx.count_cases("search-gate-dbg", n_d)
+    if ctx.fail_inputs:
+        return
     for base, ops in list(seeds.get("gate-ops", []))[:300] + gen_ops_cases(ctx, ctx.budget(3000, 10000), tag="ops-deep"):
         bad = oracle_ops(ops, run_ops_real(pp, base, ops))
         if bad and n_fail < 3:
@@ -1881,7 +2183,9 @@ def replay(data):
         if not bad and case["da"]:
             _, log = run_gate_real(pp, t, case["s"], True, via_parse_string=True)
             bad = oracle_gate(t, case["s"], True, log)
-        return bad is not None
+        return bad is not None or oracle_dbg(pp, t, case["s"], case["da"]) is not None
+    if "mode" in case and "cp" in case:
+        return oracle_pnc(case, run_pnc_real(pp, case, case["mode"])[0], run_pnc_real(pp, case, None)[0]) is not None
     if "ops" in case:
         return oracle_ops(case["ops"], run_ops_real(pp, case["base"], case["ops"])) is not None
     if "behs" in case:
